@@ -123,7 +123,12 @@ func vp_C18_allowed_total() {
 		sk = vpStrPtr("@not a user id")
 	}
 	var content []byte
-	switch vpChoice("content", "empty", "membership-join", "membership-number", "levels", "levels-mistyped", "tpi-block", "tpi-block-mistyped") {
+	switch vpChoice("content", "empty", "membership-join", "membership-number", "levels", "levels-mistyped", "tpi-block", "tpi-block-signed", "tpi-block-mistyped") {
+	case "tpi-block-signed":
+		// a signed block carrying a (64-byte) signature of an identity server
+		sig := "AAAAAAAAAAAAAAAAAAAAAAAAAAAAAAAAAAAAAAAAAAAAAAAAAAAAAAAAAAAAAAAAAAAAAAAAAAAAAAAAAAAAAA"
+		content = vpJObj("membership", spec.Invite, "third_party_invite", vpJObj("display_name", "d", "signed",
+			vpJObj("mxid", vpBob, "token", "tok", "signatures", vpJObj("id.example", vpJObj("ed25519:0", sig)))))
 	case "empty":
 		content = vpJObj()
 	case "membership-join":
@@ -159,6 +164,17 @@ func vp_C18_allowed_total() {
 	}
 	if vpNondetBool("has_power_levels") {
 		_ = auth.AddEvent(vpMkEvent(ver, "$pl:x", room, vpAlice, spec.MRoomPowerLevels, vpStrPtr(""), vpJObj("users", vpJObj(vpAlice, int64(100)))))
+	}
+	// a pending third-party invite whose public key may be of any length (it comes from the network like any event)
+	switch vpChoice("tpi_state", "absent", "key-32-bytes", "key-3-bytes", "key-empty", "keys-mistyped") {
+	case "key-32-bytes":
+		_ = auth.AddEvent(vpMkEvent(ver, "$tpi:x", room, vpAlice, spec.MRoomThirdPartyInvite, vpStrPtr("tok"), vpJObj("display_name", "d", "public_keys", vpJArr(vpJObj("public_key", "AAAAAAAAAAAAAAAAAAAAAAAAAAAAAAAAAAAAAAAAAAA")))))
+	case "key-3-bytes":
+		_ = auth.AddEvent(vpMkEvent(ver, "$tpi:x", room, vpAlice, spec.MRoomThirdPartyInvite, vpStrPtr("tok"), vpJObj("display_name", "d", "public_keys", vpJArr(vpJObj("public_key", "AAAA")))))
+	case "key-empty":
+		_ = auth.AddEvent(vpMkEvent(ver, "$tpi:x", room, vpAlice, spec.MRoomThirdPartyInvite, vpStrPtr("tok"), vpJObj("display_name", "d", "public_keys", vpJArr(vpJObj("public_key", "")))))
+	case "keys-mistyped":
+		_ = auth.AddEvent(vpMkEvent(ver, "$tpi:x", room, vpAlice, spec.MRoomThirdPartyInvite, vpStrPtr("tok"), vpJObj("public_keys", "none")))
 	}
 	if vpNondetBool("sender_joined") {
 		_ = auth.AddEvent(vpMkEvent(ver, "$ms:x", room, sender, spec.MRoomMember, vpStrPtr(sender), vpJObj("membership", spec.Join)))
